@@ -1116,12 +1116,53 @@ type vxC05PageCase struct {
 	Second   *cqlspec.Response `json:"second"` // whatever comes back for page 2 (any kind)
 	Mut      vxMut             `json:"mut"`
 	Consumer int               `json:"consumer"`
+	Flatten  bool              `json:"flatten,omitempty"` // page 2 = page 1 with its tuple columns spread over one column per element (same number of scan targets, more columns)
+}
+
+// vxFlattenTuples returns r with every tuple column replaced by one column per element.
+func vxFlattenTuples(r *cqlspec.Response) (*cqlspec.Response, bool) {
+	out := *r
+	m := *r.Meta
+	var cols []cqlspec.Column
+	did := false
+	for _, c := range r.Meta.Columns {
+		if c.Type.Kind == cqlspec.Tuple && len(c.Type.Elems) >= 1 {
+			did = true
+			for j, e := range c.Type.Elems {
+				cols = append(cols, cqlspec.Column{Keyspace: c.Keyspace, Table: c.Table, Name: fmt.Sprintf("%s_%d", c.Name, j), Type: e})
+			}
+			continue
+		}
+		cols = append(cols, c)
+	}
+	var rows [][]cqlspec.Value
+	for _, row := range r.Rows {
+		var nr []cqlspec.Value
+		for ci, c := range r.Meta.Columns {
+			if c.Type.Kind == cqlspec.Tuple && len(c.Type.Elems) >= 1 {
+				for j := range c.Type.Elems {
+					if row[ci].Null || j >= len(row[ci].Elems) {
+						nr = append(nr, cqlspec.NullValue())
+					} else {
+						nr = append(nr, row[ci].Elems[j])
+					}
+				}
+				continue
+			}
+			nr = append(nr, row[ci])
+		}
+		rows = append(rows, nr)
+	}
+	m.Columns = cols
+	out.Meta = &m
+	out.Rows = rows
+	return &out, did
 }
 
 func TestVxC05Pages(t *testing.T) {
 	vx.Check(t, vx.Prop{
 		ID: "C05", Part: "TestVxC05Pages",
-		Rule: "a real session iterates a paged result: page 1 is a generated rows result with the more-pages flag; the answer to the follow-up request is an unrelated generated response (mostly rows with other columns / column counts / tuple columns, sometimes another kind), optionally mutated; consumed with Scan, Scanner, MapScan or SliceMap; oracle: iteration ends with rows or an error, nothing panics, the calls return; non-trivial = the second page's column list differs from the first; distinct by the case",
+		Rule: "a real session iterates a paged result: page 1 is a generated rows result with the more-pages flag; the answer to the follow-up request is an unrelated generated response (mostly rows with other columns / column counts / tuple columns, sometimes another kind) or page 1 again with every tuple column spread over one column per element (same number of scan targets, more columns), optionally mutated; consumed with Scan, Scanner, MapScan or SliceMap; oracle: iteration ends with rows or an error, nothing panics, the calls return; non-trivial = the second page's column list differs from the first; distinct by the case",
 		Draw: func(t *rapid.T) interface{} {
 			c := &vxC05PageCase{Proto: rapid.IntRange(2, 5).Draw(t, "proto"), Consumer: rapid.IntRange(0, 3).Draw(t, "consumer"), Mut: vxMut{Kind: "none"}}
 			for try := 0; try < 300 && (c.First == nil || c.Second == nil); try++ {
@@ -1138,6 +1179,7 @@ func TestVxC05Pages(t *testing.T) {
 			if rapid.IntRange(0, 3).Draw(t, "mutate") == 0 {
 				c.Mut = vxDrawMut(t, true)
 			}
+			c.Flatten = rapid.IntRange(0, 2).Draw(t, "flatten") == 0
 			return c
 		},
 		New: func() interface{} { return &vxC05PageCase{} },
@@ -1152,6 +1194,12 @@ func TestVxC05Pages(t *testing.T) {
 			first.Meta = &m
 			first.TraceHex, first.Warnings, first.HasPayload = "", nil, false
 			second := *c.Second
+			if c.Flatten {
+				if f, did := vxFlattenTuples(c.First); did {
+					second = *f
+					k.Class("second=page 1 with tuple columns spread")
+				}
+			}
 			if second.Meta != nil {
 				m2 := *second.Meta
 				m2.HasMore, m2.StateHex = false, ""
